@@ -114,7 +114,7 @@ def label_items(pt, rng, n):
 def immediate_items(pt, rng, n):
     """Immediates on both sides of their encoding range."""
     vals = [0, 1, 15, 16, 127, 128, 254, 255, 256, 257, 300, 65535, 65536]
-    kinds = ["txna", "gtxn", "gtxna", "arg", "slot", "substring", "extract", "suffix", "gload", "gaid", "gitxn", "itxna", "importscratch"]
+    kinds = ["txna", "gtxn", "gtxna", "arg", "slot", "substring", "extract", "suffix", "gload", "gaid", "gitxn", "itxna", "importscratch", "nslots"]
     for i in range(n):
         kind = rng.choice(kinds)
         a, b = rng.choice(vals), rng.choice(vals)
@@ -140,6 +140,12 @@ def immediate_items(pt, rng, n):
                 e = pt.Extract(pt.BytesZero(I(4000)), I(a), I(b))
             elif kind == "suffix":
                 e = pt.Suffix(pt.BytesZero(I(4000)), I(a))
+            elif kind == "nslots":
+                # programs on both sides of the 256-slot limit (automatic and requested ids mixed): accepted ones may only name slots 0..255
+                n = {0: 255, 1: 256, 15: 257, 16: 257, 127: 258}.get(a, 257 if a % 2 else 256)
+                nreq = b % 60
+                vs = [pt.ScratchVar(pt.TealType.uint64, 2 * j + 1) for j in range(nreq)] + [pt.ScratchVar(pt.TealType.uint64) for _ in range(n - nreq)]
+                e = pt.Seq(*[v.store(I(7)) for v in vs], pt.Itob(pt.Add(I(0), I(0), *[v.load() for v in vs])))
             elif kind == "gload":
                 e = pt.Itob(pt.Btoi(pt.Itob(pt.ImportScratchValue(a, b))))
             elif kind == "gaid":
